@@ -35,7 +35,7 @@ UNARY = ["inverse", "copy", "to_array", "to_compact", "position", "orientation",
 EDGE_QUERIES = ["edge_error", "edge_chi2", "edge_jacobians", "edge_cgh", "edge_numeric_jacobians", "edge_to_g2o",
                 "edge_equals_self", "edge_equals_clone", "buffer_error", "buffer_jacobians", "buffer_cgh"]
 VERTEX_QUERIES = ["vertex_to_g2o", "vertex_equals_self", "vertex_equals_other"]
-GRAPH_QUERIES = ["graph_chi2", "graph_equals_clone", "graph_equals_perturbed", "graph_export", "graph_export"]
+GRAPH_QUERIES = ["graph_chi2", "graph_equals_clone", "graph_equals_perturbed", "graph_export", "graph_export", "params_to_g2o"]
 POSE_QUERIES = ["pose_unary", "pose_binary", "pose_jac_unary", "pose_jac_binary", "pose_jac_point", "pose_boxplus",
                 "pose_alias_iadd", "pose_copy_independent", "pose_views_independent", "pose_equals"]
 
@@ -78,6 +78,8 @@ def pose_pool(g):
             pool.append(["est", k])
         if getattr(e, "offset", None) is not None:
             pool.append(["off", k])
+    for k, _ in enumerate((getattr(g, "_g2o_params", None) or {}).values()):
+        pool.append(["par", k])
     return pool
 
 
@@ -88,6 +90,8 @@ def locate(g, loc):
         return g._edges[loc[1]].estimate
     if loc[0] == "off":
         return g._edges[loc[1]].offset
+    if loc[0] == "par":
+        return list(g._g2o_params.values())[loc[1]].value
     raise KeyError(loc)
 
 
@@ -112,7 +116,11 @@ def snapshot(g):
             np.array(e.information, dtype=np.float64).tobytes().hex(), est_c, off_c, getattr(e, "offset_id", None),
             [vidx.get(id(v), -1) for v in (e.vertices or [])],
         ])
-    return {"v": vs, "e": es}
+    ps = []
+    for key, par in (getattr(g, "_g2o_params", None) or {}).items():
+        t = graphs.type_name(par.value)
+        ps.append([list(key), list(par.key), t, canon_bytes(par.value, t).hex()])
+    return {"v": vs, "e": es, "p": ps}
 
 
 def diff_snapshots(a, b, allow_poses=False, allow_first_flag=False):
@@ -128,6 +136,8 @@ def diff_snapshots(a, b, allow_poses=False, allow_first_flag=False):
             return "vertex #%d (id %d, %s) pose changed: %s -> %s (delta %s)" % (k, x[0], x[1], pa.tolist(), pb.tolist(), (pb - pa).tolist())
         if x[3] != y[3] and not (allow_first_flag and k == 0 and y[3] is True):
             return "vertex #%d (id %d) fixed flag changed: %r -> %r" % (k, x[0], x[3], y[3])
+    if a.get("p") != b.get("p"):
+        return "the g2o parameter table changed"
     names = ["type", "vertex_ids", "information shape", "information", "estimate", "offset", "offset_id", "vertex binding"]
     for k, (x, y) in enumerate(zip(a["e"], b["e"])):
         for n, (p, q) in zip(names, zip(x, y)):
@@ -174,6 +184,21 @@ class C15(OptEngineBase):
         ids = [v["id"] for v in verts]
         for v in verts:
             v["fixed"] = rng.random() < 0.25
+        # a parameter table for the 3-D landmark offsets (as a loaded graph has), so that exports can succeed
+        if rng.random() < 0.7:
+            table = {}
+            for e in workload["edges"]:
+                off = e.get("offset")
+                if off is not None and off["t"] == "SE3":
+                    if e.get("offset_id") is None:
+                        e["offset_id"] = rng.choice([0, 1, 7])
+                    if e["offset_id"] in table:
+                        e["offset"] = copy.deepcopy(table[e["offset_id"]])
+                    else:
+                        table[e["offset_id"]] = copy.deepcopy(off)
+            if table:
+                workload["params"] = [{"key": ["PARAMS_SE3OFFSET", k], "v": v} for k, v in table.items()]
+                meta["params"] = len(table)
         g = graphs.build(workload)
         pool = pose_pool(g)
         ne = len(workload["edges"])
@@ -303,6 +328,8 @@ class C15(OptEngineBase):
         if q == "graph_export":
             g.to_g2o(op["path"])
             return "exported"
+        if q == "params_to_g2o":
+            return [par.to_g2o() for par in (getattr(g, "_g2o_params", None) or {}).values()]
         a = locate(g, op["a"])
         b = locate(g, op["b"])
         ta = graphs.type_name(a)
